@@ -2,8 +2,7 @@ use crate::{not_whitespace, slash_num};
 use bytes::Bytes;
 use bytesstr::BytesStr;
 use internal::{ws, IResult};
-use nom::branch::alt;
-use nom::bytes::complete::{tag, take_while1};
+use nom::bytes::complete::take_while1;
 use nom::character::complete::digit1;
 use nom::combinator::{map, map_res, opt};
 use nom::error::context;
@@ -23,12 +22,14 @@ impl MediaType {
     pub fn parse(i: &str) -> IResult<&str, Self> {
         context(
             "parsing media type",
-            alt((
-                map(tag("audio"), |_| MediaType::Audio),
-                map(tag("video"), |_| MediaType::Video),
-                map(tag("text"), |_| MediaType::Text),
-                map(tag("application"), |_| MediaType::App),
-            )),
+            // match the complete token, `audiox` is not `audio`
+            map_res(take_while1(not_whitespace), |media_type| match media_type {
+                "audio" => Ok(MediaType::Audio),
+                "video" => Ok(MediaType::Video),
+                "text" => Ok(MediaType::Text),
+                "application" => Ok(MediaType::App),
+                _ => Err("unknown media type"),
+            }),
         )(i)
     }
 }
@@ -64,15 +65,14 @@ pub enum TransportProtocol {
 impl TransportProtocol {
     pub fn parse(src: &Bytes) -> impl Fn(&str) -> IResult<&str, Self> + '_ {
         move |i| {
-            alt((
-                map(tag("udp"), |_| TransportProtocol::Unspecified),
-                map(tag("RTP/AVP"), |_| TransportProtocol::RtpAvp),
-                map(tag("RTP/SAVP"), |_| TransportProtocol::RtpSavp),
-                map(tag("RTP/SAVPF"), |_| TransportProtocol::RtpSavpf),
-                map(take_while1(not_whitespace), |tp| {
-                    TransportProtocol::Other(BytesStr::from_parse(src, tp))
-                }),
-            ))(i)
+            // match the complete token, `RTP/SAVPF` must not be taken for `RTP/SAVP`
+            map(take_while1(not_whitespace), |tp| match tp {
+                "udp" => TransportProtocol::Unspecified,
+                "RTP/AVP" => TransportProtocol::RtpAvp,
+                "RTP/SAVP" => TransportProtocol::RtpSavp,
+                "RTP/SAVPF" => TransportProtocol::RtpSavpf,
+                _ => TransportProtocol::Other(BytesStr::from_parse(src, tp)),
+            })(i)
         }
     }
 }
